@@ -7,8 +7,8 @@ from .core import Violation, HarnessError, Aborted
 from .floor import Floor
 
 
-def gen_case(rng, profile='default'):
-    return specmod.gen_spec(rng, profile)
+def gen_case(rng, profile='default', big=False):
+    return specmod.gen_spec(rng, profile, big)
 
 
 def gen_crashpoint(rng):
